@@ -1117,3 +1117,18 @@ Proof.
   - eexists. eexists. split; [reflexivity|].
     split; apply isort_sorted; auto using content_le_total, content_le_trans, sd_le_total, sd_le_trans.
 Qed.
+
+(* one clean(): both classes end within their limits when enough removable blobs exist for each at the moment its pass
+   runs (the network pass runs on the state the content pass left) *)
+Lemma clean_reaches_both cl nl d : tables_ok d -> cl <> 0%Z -> enough false cl d ->
+  enough true nl (snd (clean_pass false cl d)) ->
+  (Z.of_N (used_mb false (snd (clean cl nl d))) <= cl)%Z /\ (Z.of_N (used_mb true (snd (clean cl nl d))) <= nl)%Z.
+Proof.
+  intros Hw Hz He Hn. unfold clean.
+  pose proof (reaches_limit false cl d Hw (or_intror Hz) He) as R1.
+  pose proof (tables_ok_pass false cl d Hw) as Hw1.
+  destruct (clean_pass false cl d) as [dl1 d1]. cbn [snd] in *.
+  pose proof (reaches_limit true nl d1 Hw1 (or_introl eq_refl) Hn) as R2.
+  pose proof (usage_never_increases true false nl d1) as A.
+  destruct (clean_pass true nl d1) as [dl2 d2]. cbn [snd] in *. split; [lia | exact R2].
+Qed.
